@@ -136,6 +136,9 @@ func SexpToJson(exp Sexp) string {
 		return jsonQuote(e.name)
 	case *SexpStr:
 		return jsonQuote(e.S)
+	case *SexpUint64:
+		// the language printer appends ULL, which is not a JSON number
+		return strconv.FormatUint(e.Val, 10)
 	case *SexpSentinel:
 		if e == SexpNull {
 			return "null"
